@@ -315,16 +315,30 @@ static void enumerate(void) {
         char d[96]; snprintf(d, sizeof d, "c04:valid-long-file;%s", rf_desc(&f)); d[95] = 0; mc_case_key(mc_hash(d, strlen(d), 0xc04e)); mc_nontrivial(); mc_feature("valid-long-file");
         try_image(img.p, img.n, d); ref_buf_free(&img); ref_arena_free(&RA);
     }
+    /* valid dictionary-encoded nullable chunks whose pages differ in how many values they hold: per-page scratch sized by one page and reused by the next */
+    mc_stage("valid-dictionary-files.null-density-per-page");
+    for (int combo = 0; combo < 256; combo++) for (int ty = 0; ty < 2; ty++) for (int enc = 0; enc < 2; enc++) {
+        if (!mc_next()) continue;
+        rfile_t f; memset(&f, 0, sizeof f); f.ncols = 1; f.N = 64; f.nrg = 1; f.codec = CODEC_NONE; f.crc = true; f.pattern = 0; f.dict_offset_present = true; f.level_form = REF_H_MIXED; f.index_form = REF_H_MIXED;
+        f.col[0].ptype = ty ? PT_BYTE_ARRAY : PT_INT32; f.col[0].opt = 1; f.enc[0] = enc ? ENC_PLAIN_DICT : ENC_RLE_DICT; f.npages[0] = 4; uint64_t m = 0;
+        for (int p = 0; p < 4; p++) { f.page_levels[0][p] = 16; int d = (combo >> (2 * p)) & 3; uint64_t pm = d == 0 ? 0xffff : d == 1 ? 0xfffe : d == 2 ? 0xaaaa : 0; m |= pm << (16 * p); }
+        f.mask[0] = m;
+        ref_buf img; ref_buf_init(&img); static ref_coldata lc[4]; int np = 0; if (rf_build(&RA, &f, &img, NULL, 0, &np, lc)) mc_harness_error("reference writer failed (dictionary file)");
+        char d[96]; snprintf(d, sizeof d, "c04:valid-dictionary-file;type=%s;enc=%d;non-null-per-page=%d,%d,%d,%d", ty ? "str" : "i32", enc, "\0\1\10\20"[combo & 3], "\0\1\10\20"[(combo >> 2) & 3], "\0\1\10\20"[(combo >> 4) & 3], "\0\1\10\20"[(combo >> 6) & 3]);
+        mc_case_key(mc_hash(d, strlen(d), 0xc04d)); mc_nontrivial(); mc_feature("valid-dictionary-file");
+        try_image(img.p, img.n, d); ref_buf_free(&img); ref_arena_free(&RA);
+    }
     mc_stage("families.nesting-depth.payload-free-counts");
     { ref_buf img; ref_buf_init(&img); if (make_seed(0, &img)) mc_harness_error("seed"); ref_file rf; if (ref_pq_read(&RA, img.p, img.n, &rf, 0)) mc_harness_error("seed0");
       static const long DEPTH[] = { 1, 31, 32, 33, 1000, 100000, 1000000 };
-      for (int di = 0; di < 7; di++) for (int kind = 0; kind < 4; kind++) {
+      for (int di = 0; di < 7; di++) for (int kind = 0; kind < 5; kind++) {
           if (!mc_next()) continue;
           ref_buf fb, out; ref_buf_init(&fb); ref_buf_init(&out); long D = DEPTH[di];
           /* the valid footer with an extra unknown field (id 15) in front whose value nests D containers */
           switch (kind) { case 0: ref_buf_u8(&fb, 0xf9); for (long i = 0; i < D; i++) ref_buf_u8(&fb, 0x19); ref_buf_u8(&fb, 0x05); ref_buf_u8(&fb, 0x00); break;
                           case 1: ref_buf_u8(&fb, 0xfb); for (long i = 0; i < D; i++) { ref_buf_u8(&fb, 0x01); ref_buf_u8(&fb, 0x5b); ref_buf_u8(&fb, 0x00); } ref_buf_u8(&fb, 0x00); break;
                           case 2: ref_buf_u8(&fb, 0xfc); for (long i = 0; i < D; i++) ref_buf_u8(&fb, 0x1c); for (long i = 0; i <= D; i++) ref_buf_u8(&fb, 0x00); break;
+                          case 4: ref_buf_u8(&fb, 0xfc); for (long i = 0; i < D; i++) { ref_buf_u8(&fb, 0x0c); ref_buf_u8(&fb, 0x02); } for (long i = 0; i <= D; i++) ref_buf_u8(&fb, 0x00); break;      /* structs through long-form field headers (explicit id 1) */
                           default: ref_buf_u8(&fb, 0xfa); for (long i = 0; i < D; i++) ref_buf_u8(&fb, 0x1a); ref_buf_u8(&fb, 0x05); break; }
           uint32_t flen = (uint32_t)(img.n - 8 - rf.footer_start);
           /* field ids restart: the real footer's first header is a short-form delta from 0; after id 15 write long-form header for field 1 */
